@@ -33,10 +33,12 @@ impl RequestUrl {
         let base = url::Url::parse(base)?;
         let url = url::Url::options().base_url(Some(&base)).parse(&self.0)?;
 
-        let search_params = url
-            .query_pairs()
-            .map(|(k, v)| (k.to_string(), v.to_string()))
-            .collect::<ParamsMap>();
+        // `query_pairs` already percent-decodes keys and values: collecting into a
+        // `ParamsMap` would decode the values a second time (`%2541` -> `%41` -> `A`)
+        let mut search_params = ParamsMap::new();
+        for (k, v) in url.query_pairs() {
+            search_params.insert_decoded(k.to_string(), v.to_string());
+        }
 
         Ok(Url {
             origin: url.origin().unicode_serialization(),
